@@ -82,9 +82,9 @@ structure Operand where
   val : Int
   deriving Repr, Inhabited
 
-/-- `uintW(x)`: range check of the constructor -/
+/-- `uintW(x)`: range check of the constructor (`value < 0`, `value.bit_length() > (byte_len << 3)`) -/
 def wrap (w : Nat) (x : Int) : Option Nat :=
-  if x < 0 then none else if x.toNat < 2 ^ (8 * w) then some x.toNat else none
+  if x < 0 then none else if bitLength x.toNat > 8 * w then none else some x.toNat
 
 /-- `uintW.coerce_view(o)`: a uint of another width is refused, anything else goes through the constructor -/
 def coerceOperand (w : Nat) (o : Operand) : Option Nat :=
@@ -92,23 +92,24 @@ def coerceOperand (w : Nat) (o : Operand) : Option Nat :=
   | some w' => if w' != w then none else wrap w o.val
   | none => wrap w o.val
 
-/-- Python floor division / modulo on non-negative operands -/
-def bitwise (f : Bool → Bool → Bool) (a b : Nat) : Nat := Nat.bitwise f a b
+/-- the constructor applied to a non-negative result -/
+def wrapN (w : Nat) (n : Nat) : Option Nat := wrap w (n : Int)
 
-/-- `a.__op__(o)` for `a : uintW` -/
+/-- `a.__op__(o)` for `a : uintW`.  Every result goes through the constructor (`wrapN` / `wrap`);
+    a difference is negative exactly when `b > a`. -/
 def directOp (w : Nat) (a : Nat) (op : BinOp) (o : Operand) : Option Nat :=
   match op with
-  | .add => (coerceOperand w o).bind fun b => wrap w ((a + b : Nat) : Int)
-  | .sub => (coerceOperand w o).bind fun b => wrap w ((a : Int) - b)
-  | .mul => (coerceOperand w o).bind fun b => wrap w ((a * b : Nat) : Int)
-  | .floordiv => (coerceOperand w o).bind fun b => if b = 0 then none else wrap w ((a / b : Nat) : Int)
-  | .mod => (coerceOperand w o).bind fun b => if b = 0 then none else wrap w ((a % b : Nat) : Int)
-  | .and => (coerceOperand w o).bind fun b => wrap w ((a &&& b : Nat) : Int)
-  | .or => (coerceOperand w o).bind fun b => wrap w ((a ||| b : Nat) : Int)
-  | .xor => (coerceOperand w o).bind fun b => wrap w ((a ^^^ b : Nat) : Int)
-  | .pow => if o.val < 0 then none else wrap w ((a ^ o.val.toNat : Nat) : Int)
-  | .lshift => if o.val < 0 then none else wrap w (((a * 2 ^ o.val.toNat) % 2 ^ (8 * w) : Nat) : Int)
-  | .rshift => if o.val < 0 then none else wrap w ((a / 2 ^ o.val.toNat : Nat) : Int)
+  | .add => (coerceOperand w o).bind fun b => wrapN w (a + b)
+  | .sub => (coerceOperand w o).bind fun b => if a < b then none else wrapN w (a - b)
+  | .mul => (coerceOperand w o).bind fun b => wrapN w (a * b)
+  | .floordiv => (coerceOperand w o).bind fun b => if b = 0 then none else wrapN w (a / b)
+  | .mod => (coerceOperand w o).bind fun b => if b = 0 then none else wrapN w (a % b)
+  | .and => (coerceOperand w o).bind fun b => wrapN w (a &&& b)
+  | .or => (coerceOperand w o).bind fun b => wrapN w (a ||| b)
+  | .xor => (coerceOperand w o).bind fun b => wrapN w (a ^^^ b)
+  | .pow => if o.val < 0 then none else wrapN w (a ^ o.val.toNat)
+  | .lshift => if o.val < 0 then none else wrapN w ((a * 2 ^ o.val.toNat) % 2 ^ (8 * w))
+  | .rshift => if o.val < 0 then none else wrapN w (a / 2 ^ o.val.toNat)
   | .truediv => none
 
 /-- `a.__rop__(o)` for `a : uintW` and a plain int `o` on the left -/
@@ -119,9 +120,9 @@ def reflectedOp (w : Nat) (a : Nat) (op : BinOp) (o : Operand) : Option Nat :=
   | .and => directOp w a .and o
   | .or => directOp w a .or o
   | .xor => directOp w a .xor o
-  | .sub => (coerceOperand w o).bind fun b => wrap w ((b : Int) - a)
-  | .floordiv => (coerceOperand w o).bind fun b => if a = 0 then none else wrap w ((b / a : Nat) : Int)
-  | .mod => (coerceOperand w o).bind fun b => if a = 0 then none else wrap w ((b % a : Nat) : Int)
+  | .sub => (coerceOperand w o).bind fun b => if b < a then none else wrapN w (b - a)
+  | .floordiv => (coerceOperand w o).bind fun b => if a = 0 then none else wrapN w (b / a)
+  | .mod => (coerceOperand w o).bind fun b => if a = 0 then none else wrapN w (b % a)
   | .pow => wrap w (o.val ^ a)
   | .lshift => none     -- `__rlshift__` requires the left operand to be a uint
   | .rshift => none
@@ -135,7 +136,7 @@ def evalBin (op : BinOp) (x y : Operand) : Option (Nat × Nat) :=
   | none, none => none
 
 /-- `~a` -/
-def invert (w : Nat) (a : Nat) : Option Nat := wrap w ((a ^^^ (2 ^ (8 * w) - 1) : Nat) : Int)
+def invert (w : Nat) (a : Nat) : Option Nat := wrapN w (a ^^^ (2 ^ (8 * w) - 1))
 
 /-! ### stack-machine iterators -/
 
